@@ -1,5 +1,6 @@
 from __future__ import annotations
 
+import re
 from dataclasses import dataclass
 from pathlib import Path
 from typing import List
@@ -22,6 +23,9 @@ class SMMapSet(
         """Reads a .sm file"""
         ms = SMMapSet()
         lines = "\n".join(lines) if isinstance(lines, list) else lines
+        # Like StepMania, drop "//" comments up to the end of the line before
+        # tokenizing, so that their content (: ; ,) and position don't matter.
+        lines = re.sub(r"//[^\n]*", "", lines)
         file_spl = [i.strip() for i in lines.split(";")]
         metadata = []
         maps = []
